@@ -1,4 +1,5 @@
 mod engine;
+mod opgen;
 mod props;
 mod wasmutil;
 
@@ -11,6 +12,8 @@ fn usage() -> ! {
 
 fn dispatch(id: &str, tier: Tier) -> i32 {
     match id {
+        "C01" => props::c01::check("C01", tier),
+        "C02" => props::c01::check("C02", tier),
         "C24" => props::c24::check(tier),
         _ => {
             out(&format!("MACHINERY-ERROR: no check registered for {}", id));
@@ -22,6 +25,7 @@ fn dispatch(id: &str, tier: Tier) -> i32 {
 fn replay_dispatch(id: &str, family: &str, case: &serde_json::Value) -> Option<Vec<Mismatch>> {
     let _ = family;
     match id {
+        "C01" | "C02" => Some(props::c01::replay(id, case)),
         "C24" => Some(props::c24::replay(case)),
         _ => None,
     }
@@ -93,6 +97,17 @@ fn main() {
                     std::process::exit(2);
                 }
             }
+        }
+        "rt" => {
+            // debugging aid: judge one file with the C01/C02 oracle
+            set_verbose_panics(true);
+            let bytes = if args[2].ends_with(".wat") { wat::parse_file(&args[2]).expect("wat") } else { std::fs::read(&args[2]).expect("read") };
+            let multi = args.get(3).map(|s| s == "multi").unwrap_or(false);
+            let j = props::c01::judge(&bytes, multi, false);
+            out(&format!("skipped={:?}", j.skipped));
+            for m in j.c01.iter() { out(&format!("C01 [{}] {}", m.sig, m.detail)); }
+            for m in j.c02.iter() { out(&format!("C02 [{}] {}", m.sig, m.detail)); }
+            std::process::exit(0);
         }
         _ => usage(),
     }
